@@ -249,16 +249,23 @@ def parse_items(src: str, toks=None, lo=0, hi=None, match=None, parent=None) -> 
         # generics/where clauses do not occur in this code base)
         j = k + 1
         body_open_k = None
+        spec_clause = False
         while j < hi:
             tj = toks[j]
             if tj.kind == 'open':
                 if tj.text == '{':
+                    if kw == 'fn' and spec_clause and not _item_boundary(toks, match[j] + 1, hi):
+                        # a `{ .. }` inside a requires / ensures / decreases clause (if-expression, block): not the body yet
+                        j = match[j] + 1
+                        continue
                     body_open_k = j
                     break
                 j = match[j] + 1
                 continue
             if tj.text == ';':
                 break
+            if tj.kind == 'id' and tj.text in ('requires', 'ensures', 'decreases', 'recommends'):
+                spec_clause = True
             j += 1
         if j >= hi:
             raise ScanError('unterminated item at %d' % t.pos)
@@ -290,6 +297,20 @@ def parse_items(src: str, toks=None, lo=0, hi=None, match=None, parent=None) -> 
         items.append(it)
         k = end_k + 1
     return items
+
+
+def _item_boundary(toks, k, hi):
+    """does the token at k start a new item (or end the enclosing block)? Used to tell a function body from a brace group
+    inside a Verus spec clause: after the body comes an item, an attribute, or the end of the enclosing block."""
+    if k >= hi:
+        return True
+    t = toks[k]
+    if t.kind == 'close':
+        return True
+    if t.text == '#':
+        return True
+    return t.kind == 'id' and (t.text in ITEM_KW or t.text in QUALS or t.text in (
+        'pub', 'proof', 'spec', 'open', 'closed', 'exec', 'uninterp', 'broadcast', 'axiom', 'tracked', 'ghost', 'global', 'verus'))
 
 
 def _skip_generics(toks, k, limit):
